@@ -261,7 +261,7 @@ func (w *FileWriter) generateFieldSchemaCode(field tagparser.FieldInfo, structNa
 			b.WriteString(code)
 		}
 	}
-	if isPointerType(field.Type) || !field.Required {
+	if !field.Required {
 		b.WriteString(".Optional()")
 	}
 	return b.String(), nil
